@@ -67,6 +67,16 @@ static char sig_buf[1400];	/* abstract state after the last step (DFS state cach
 static int last_item[MAX_W + 1];
 static int used_fine;		/* the schedule contains a fine pre-emption token */
 static long n_discipline, n_discipline_printed;
+/* what thread 0 saw at the entry of its last shim operation (for a dequeue that took the lock: the entry of
+ * its final pthread_mutex_unlock, i.e. the state it decided on, still under the mutex): is the item with
+ * the next ticket to hand back sitting completed at the head of the done list? */
+static long main_ops;
+static int main_done_ready;
+static const void *main_done_head;
+/* ghost, independent of the pool's fields: item id has certainly passed store_completed, because the worker
+ * that processed it has since entered another callback or has exited (a worker stores the item it holds
+ * before it looks for the next one / before it leaves) */
+static int sure_stored[MAX_ITEMS];
 
 /* ---- lock-discipline oracle: what the shim compares between the shim operations of a thread ----
  * part 0: everything of the pool that workers and the submitter share: may only change while the
@@ -98,6 +108,11 @@ static unsigned long long pool_snap(void *ud, int part)
 	uint64_t h = 0xcbf29ce484222325ULL;
 	(void)ud;
 
+	if (part == 0 && shim_self() == 0) {
+		main_ops++;
+		main_done_ready = p->done != NULL && p->done->ticket_number == p->next_dequeue_ticket;
+		main_done_head = main_done_ready ? p->done->data : NULL;
+	}
 	if (part == 0) {
 		h = mixh(h, (uint64_t)p->status);
 		h = mixh(h, (uint64_t)p->next_ticket);
@@ -145,6 +160,8 @@ static int worker_cb(void *user, void *work)
 	if (c >= 0)
 		ctx_busy[c] = 1;
 	if (me >= 1 && me <= MAX_W) {
+		if (last_item[me] >= 0 && last_item[me] < MAX_ITEMS)
+			sure_stored[last_item[me]] = 1;
 		in_cb[me] = 1;
 		last_item[me] = it->id;
 		snprintf(cb_ev[me], sizeof(cb_ev[me]), "B%d:%d:%d", c, it->id, it->val);
@@ -195,11 +212,57 @@ static void client(void *arg)
 		}
 		case 'D': {
 			int fail_before = any_fail_done;
-			item_t *it = pool->dequeue(pool);
+			long ops_before = main_ops;
+			int sure_before = 0;
+			item_t *it;
+
+			if (n_deq < n_sub_ok) {
+				shim_view_t v;
+				int w;
+
+				shim_get_view(&v);
+				for (w = 1; w <= c_nw && w < v.nthreads; ++w)
+					if (v.state[w] == SHIM_T_EXITED && last_item[w] >= 0)
+						sure_stored[last_item[w]] = 1;
+				sure_before = sure_stored[sub_ok[n_deq]];
+			}
+			it = pool->dequeue(pool);
 
 			if (it == NULL) {
+				const thread_pool_impl_t *ip = (const thread_pool_impl_t *)pool;
+				int ready;
+
 				if (n_sub_ok > n_deq && !fail_before && !any_fail_done)
 					oracle_fail("dequeue-null-with-items-outstanding");
+				/* NULL although the next item in submission order is completed and waiting to be
+				 * handed back (a worker failure does not entitle the pool to drop what was already
+				 * processed: model dequeue_locked looks at the done list before the status).
+				 * safe_done belongs to this thread alone: read directly.  done: the state this
+				 * dequeue decided on under the mutex (snapshot at the entry of its last shim
+				 * operation; other threads may have run since when the schedule has a fine
+				 * pre-emption after the unlock); a dequeue that did no shim operation ran without
+				 * interruption since this thread was resumed: read directly. */
+				if (main_ops == ops_before) {
+					main_done_ready = ip->done != NULL &&
+							  ip->done->ticket_number == ip->next_dequeue_ticket;
+					main_done_head = main_done_ready ? ip->done->data : NULL;
+				}
+				ready = main_done_ready;
+				if (n_sub_ok > n_deq && (ip->safe_done != NULL || ready)) {
+					const item_t *h = ip->safe_done != NULL ? ip->safe_done->data : main_done_head;
+
+					/* two names so that a dropped SUCCESSFUL predecessor of the failing item and
+					 * the dropped failing item itself are reported with their own witnesses */
+					if (h >= items && h < items + MAX_ITEMS && fail_st[h->id] != 0)
+						oracle_fail("dequeue-null-with-failed-item-ready");
+					else
+						oracle_fail("dequeue-null-with-completed-item-ready");
+				}
+				/* the same judged without looking into the pool: the next item in submission order
+				 * had been processed and stored before this dequeue was called */
+				if (sure_before)
+					oracle_fail(fail_st[sub_ok[n_deq]] != 0 ? "dequeue-null-for-failed-item-stored-before-the-call" :
+						    "dequeue-null-for-item-stored-before-the-call");
 				snprintf(main_ev, sizeof(main_ev), "D=N");
 			} else if (it < items || it >= items + MAX_ITEMS) {
 				oracle_fail("dequeue-foreign-pointer");
@@ -585,6 +648,10 @@ static void run_once(shim_chooser_t ch, void *ud)
 	sched_buf[0] = '\0';
 	last_T[0] = '\0';
 	used_fine = 0;
+	main_ops = 0;
+	main_done_ready = 0;
+	main_done_head = NULL;
+	memset(sure_stored, 0, sizeof(sure_stored));
 
 	pool = thread_pool_create((size_t)c_nw, worker_cb);
 	if (pool == NULL) {
